@@ -108,6 +108,9 @@ func (e *DefaultCompactionExecutor) CompactFiles(task *CompactionTask) ([]string
 		)
 	}
 
+	// Tombstones can only be dropped when nothing below the target level exists
+	deeperFilesExist := e.hasFilesBelowLevel(task.TargetLevel)
+
 	// Create the first output file
 	if err := createNewOutputFile(); err != nil {
 		return nil, err
@@ -130,7 +133,12 @@ func (e *DefaultCompactionExecutor) CompactFiles(task *CompactionTask) ([]string
 		var shouldKeep bool
 		isTombstone := mergedIter.IsTombstone()
 
-		if tombstoneFilter != nil && isTombstone {
+		if isTombstone && deeperFilesExist {
+			// An older version of this key may live in a level below the
+			// target level, in a file that is not part of this compaction:
+			// without the tombstone it would come back
+			shouldKeep = true
+		} else if tombstoneFilter != nil && isTombstone {
 			// Use the tombstone filter for tombstones
 			shouldKeep = tombstoneFilter.ShouldKeep(key, nil)
 		} else {
@@ -178,6 +186,24 @@ func (e *DefaultCompactionExecutor) CompactFiles(task *CompactionTask) ([]string
 	}
 
 	return outputFiles, nil
+}
+
+// hasFilesBelowLevel reports whether the SSTable directory holds a file of a
+// level deeper than the given one
+func (e *DefaultCompactionExecutor) hasFilesBelowLevel(level int) bool {
+	entries, err := os.ReadDir(e.sstableDir)
+	if err != nil {
+		return true // unknown: be safe and keep tombstones
+	}
+	for _, entry := range entries {
+		var fileLevel int
+		var sequence uint64
+		var timestamp int64
+		if n, _ := fmt.Sscanf(entry.Name(), "%d_%06d_%020d.sst", &fileLevel, &sequence, &timestamp); n == 3 && fileLevel > level {
+			return true
+		}
+	}
+	return false
 }
 
 // DeleteCompactedFiles removes the input files that were successfully compacted
